@@ -26,6 +26,7 @@ import EaselModel.Msa.LemmasWuss3
 import EaselModel.Msa.LemmasRbbFew
 import EaselModel.Msa.LemmasRfCons
 import EaselModel.Msa.LemmasFull2
+import EaselModel.Msa.LemmasFlushIP
 /-! # C15 — alignment transformations keep the alignment well formed and the residues intact; WUSS round trips
 
 Property theorems only; proofs are glue on the lemmas of `EaselModel/Msa/Lemmas*.lean`.
@@ -361,6 +362,16 @@ theorem flushLeftInserts_spec (m : Msa) (a : Abc) (rf : Bytes) (wf : m.WF) (hrf 
       (∀ i, i < m.alen → a.cIsGap (rf.getD i 0) = false → (flushRow a rf m.alen r).getD i 0 = r.getD i 0) := by
   refine ⟨by simp [flushLeftInserts, hrf, habc], fun r hr => ?_⟩
   exact flushRow_spec a hg rf r m.alen (wf.rf_ok rf hrf).1 (wf.rows_ok r hr).1
+
+/-- THE IN-PLACE LOOP. `esl_msa_FlushLeftInserts` rewrites each `ax[i]` in place with two counters `a` (read) and `b`
+    (write); `flushIP` is that loop on the buffer itself, every `ax[a]` read being a read of the CURRENT buffer. Because
+    `b <= a` is invariant, the cells from `a` on are still the original ones, and the loop computes exactly `flushRow`,
+    the left-to-right function `flushLeftInserts_spec` speaks about; the driver runs the in-place version. -/
+theorem flushLeftInserts_inplace (m : Msa) (wf : m.WF) :
+    flushLeftInsertsIP m = flushLeftInserts m ∧
+    ∀ (a : Abc) (rf row : Bytes), rf.length = m.alen → row.length = m.alen →
+      flushIP a rf m.alen (m.alen + 1) 0 0 row = flushRow a rf m.alen row :=
+  ⟨flushLeftInsertsIP_eq m wf, fun a rf row h1 h2 => flushIP_is_flushRow a rf row m.alen h1 h2⟩
 
 /-- `esl_msa_MarkFragments(msa, fragthresh, &fragassign)` does not touch the alignment (it is a function of it) and flags
     sequence `i` iff the span from its first to its last residue is shorter than `minspan = ceil(fragthresh * alen)`
@@ -813,6 +824,12 @@ theorem wussNopseudo_pairs (ss : Bytes) (ct : List Nat) (h : wuss2ct ss = some c
 theorem wussFull_total (ss : Bytes) (ct : List Nat) (h : wuss2ct ss = some ct) :
     ∃ full, wussFull ss = .ok full ∧ full.length = ss.length ∧ wuss2ct full = some ct :=
   wussFull_total' ss ct h
+
+/-- `esl_wuss2kh` followed by `esl_kh2wuss` (WUSS -> old KHS notation -> WUSS) keeps the pair table of EVERY balanced WUSS
+    string: brackets come back as `<>`, unpaired symbols as `.`, pseudoknot letters unchanged -/
+theorem kh_roundtrip_pairs (ss : Bytes) (ct : List Nat) (h : wuss2ct ss = some ct) :
+    wuss2ct (kh2wuss (wuss2kh ss)) = some ct :=
+  kh_roundtrip_pairs' ss ct h
 
 /-- `esl_wuss_reverse` is an involution on every string -/
 theorem wussReverse_involutive (ss : Bytes) : wussReverse (wussReverse ss) = ss :=
@@ -1401,5 +1418,10 @@ example : reasonableRFCons (W := Nat) (C := Nat) ⟨0, (· + ·), fun r _ => dec
 
 example : (wussFull [0x3c, 0x41, 0x3e, 0x61, 0x2e]).toOption = some [0x3c, 0x41, 0x3e, 0x61, 0x3a] ∧
     wuss2ct (wussNopseudo [0x3c, 0x41, 0x3e, 0x61, 0x2e]) = some [0, 3, 0, 1, 0, 0] := by decide
+
+example : flushIP Gen.rnaAbc [0x78, 0x2e, 0x2e, 0x78] 4 5 0 0 [0, 4, 1, 2] = [0, 1, 4, 2] ∧
+    flushRow Gen.rnaAbc [0x78, 0x2e, 0x2e, 0x78] 4 [0, 4, 1, 2] = [0, 1, 4, 2] := by decide
+
+example : kh2wuss (wuss2kh [0x28, 0x41, 0x2c, 0x29, 0x61]) = [0x3c, 0x41, 0x2e, 0x3e, 0x61] := by decide
 
 end EaselModel.Props.C15
